@@ -265,6 +265,11 @@ fn bases() -> Vec<(&'static str, Vec<u8>)> {
         ("si+frames", with_frames),
         ("si+vc+app+seek+pic", section(&[si_std(), (4u8, vc_body("x", &["K=v", "ü=€"])), app(b"abcd", &[1]), seek, pic(0)])),
     ];
+    let mut v = v;
+    // channel-mask values of every short / odd shape: the accessor parses the raw comment text
+    for (i, m) in ["", "0", "x", "3", "0x", "0X3", "0xé", "é", "0x100000000", "-1", " 0x3", "0x 3"].iter().enumerate() {
+        v.push((Box::leak(format!("si+vc-mask{i}").into_boxed_str()) as &str, section(&[si_std(), (4u8, vc_body("v", &[&format!("WAVEFORMATEXTENSIBLE_CHANNEL_MASK={m}")]))])));
+    }
     for (n, s) in &v {
         assert!(s.len() <= 600, "base {n} is {} bytes", s.len());
     }
